@@ -46,6 +46,7 @@ struct FnC {
     key: String,
     header: String, // requires/ensures text
     loops: BTreeMap<usize, LoopC>,
+    closures: BTreeMap<usize, String>,
     anchors: Vec<Anchor>,
     attrs: Vec<String>, // extra verifier attributes, e.g. rlimit(60)
     used: bool,
@@ -83,6 +84,7 @@ fn parse_contracts(dir: &str) -> Contracts {
             Anchor(String, usize),
             Items(String),
             Module(String),
+            Closure(String, usize),
         }
         let mut sec = Sec::None;
         for line in txt.lines() {
@@ -94,12 +96,12 @@ fn parse_contracts(dir: &str) -> Contracts {
                 e.file = fname.clone();
                 sec = Sec::FnHeader(key);
             } else if t.starts_with("@attr ") {
-                if let Sec::FnHeader(k) | Sec::Loop(k, _) | Sec::Anchor(k, _) = &sec {
+                if let Sec::FnHeader(k) | Sec::Loop(k, _) | Sec::Anchor(k, _) | Sec::Closure(k, _) = &sec {
                     c.fns.get_mut(k).unwrap().attrs.push(t[6..].trim().to_string());
                 }
             } else if t.starts_with("@loop ") {
                 let k = match &sec {
-                    Sec::FnHeader(k) | Sec::Loop(k, _) | Sec::Anchor(k, _) => k.clone(),
+                    Sec::FnHeader(k) | Sec::Loop(k, _) | Sec::Anchor(k, _) | Sec::Closure(k, _) => k.clone(),
                     _ => panic!("{fname}: @loop outside @fn"),
                 };
                 let mut it = t[6..].split_whitespace();
@@ -112,9 +114,17 @@ fn parse_contracts(dir: &str) -> Contracts {
                 }
                 c.fns.get_mut(&k).unwrap().loops.insert(ord, lc);
                 sec = Sec::Loop(k, ord);
+            } else if t.starts_with("@closure ") {
+                let k = match &sec {
+                    Sec::FnHeader(k) | Sec::Loop(k, _) | Sec::Anchor(k, _) | Sec::Closure(k, _) => k.clone(),
+                    _ => panic!("{fname}: @closure outside @fn"),
+                };
+                let ord: usize = t[9..].trim().parse().unwrap();
+                c.fns.get_mut(&k).unwrap().closures.insert(ord, String::new());
+                sec = Sec::Closure(k, ord);
             } else if t.starts_with("@anchor ") {
                 let k = match &sec {
-                    Sec::FnHeader(k) | Sec::Loop(k, _) | Sec::Anchor(k, _) => k.clone(),
+                    Sec::FnHeader(k) | Sec::Loop(k, _) | Sec::Anchor(k, _) | Sec::Closure(k, _) => k.clone(),
                     _ => panic!("{fname}: @anchor outside @fn"),
                 };
                 // @anchor before|after [#n] "prefix"   |  @anchor start | loopstart n | loopend n
@@ -168,6 +178,11 @@ fn parse_contracts(dir: &str) -> Contracts {
                         let a = &mut c.fns.get_mut(k).unwrap().anchors[*i];
                         a.text.push_str(line);
                         a.text.push('\n');
+                    }
+                    Sec::Closure(k, o) => {
+                        let l = c.fns.get_mut(k).unwrap().closures.get_mut(o).unwrap();
+                        l.push_str(line);
+                        l.push('\n');
                     }
                     Sec::Items(k) => {
                         let s = c.traits.get_mut(k).unwrap();
@@ -865,6 +880,44 @@ impl<'a> Planter<'a> {
             *ty = parse_quote!(vp_ret!(#t));
         }
         if !(dropb && has_body) && has_body {
+            // closures
+            {
+                struct CP<'b> {
+                    ord: usize,
+                    fc: &'b FnC,
+                    found: Vec<(usize, String)>,
+                }
+                impl<'b> VisitMut for CP<'b> {
+                    fn visit_expr_mut(&mut self, e: &mut Expr) {
+                        if let Expr::Closure(c) = e {
+                            let ord = self.ord;
+                            self.ord += 1;
+                            // visit nested closures inside the body first (they get later ordinals)
+                            visit_mut::visit_expr_mut(self, &mut c.body);
+                            if let Some(t) = self.fc.closures.get(&ord) {
+                                let body = c.body.clone();
+                                let ph = format_ident!("VPC{}", ord);
+                                self.found.push((ord, t.clone()));
+                                *e = parse_quote!(vp_closure!(#ph, { #body }));
+                            }
+                            return;
+                        }
+                        visit_mut::visit_expr_mut(self, e);
+                    }
+                }
+                let mut cp = CP { ord: 0, fc: &fc, found: vec![] };
+                cp.visit_block_mut(block);
+                let found = cp.found.clone();
+                for (ord, _t) in &fc.closures {
+                    if !found.iter().any(|(o, _)| o == ord) {
+                        self.lost.push(format!("LOST-CLOSURE {} closure {}", key, ord));
+                    }
+                }
+                for (ord, t) in found {
+                    let gid = self.marker(t);
+                    replace_macro_ident(block, "vp_closure", &format!("VPC{}", ord), gid);
+                }
+            }
             // loops
             let mut lp = LoopPlanter { ord: 0, fc: &fc, markers: vec![], used: BTreeSet::new() };
             lp.visit_block_mut(block);
@@ -916,6 +969,31 @@ impl<'a> Planter<'a> {
             *block = parse_quote!({ vp_contract_nobody!(#gid); });
         }
     }
+}
+
+fn replace_macro_ident(block: &mut Block, mac: &str, placeholder: &str, gid: usize) {
+    struct R<'a> {
+        mac: &'a str,
+        ph: &'a str,
+        gid: usize,
+    }
+    impl<'a> VisitMut for R<'a> {
+        fn visit_macro_mut(&mut self, m: &mut Macro) {
+            if m.path.is_ident(self.mac) {
+                let mut it = m.tokens.clone().into_iter();
+                if let Some(proc_macro2::TokenTree::Ident(id)) = it.next() {
+                    if id == self.ph {
+                        let rest: TokenStream = it.collect();
+                        let g = proc_macro2::Literal::usize_unsuffixed(self.gid);
+                        m.tokens = quote!(#g #rest);
+                        return;
+                    }
+                }
+                // nested closures inside the body tokens: re-parse is not needed, bodies are opaque tokens here
+            }
+        }
+    }
+    R { mac, ph: placeholder, gid }.visit_block_mut(block);
 }
 
 fn replace_macro_arg(block: &mut Block, placeholder: &str, gid: usize) {
@@ -1085,6 +1163,8 @@ impl<'a> VisitMut for Planter<'a> {
             Some((_, p, _)) => norm(&format!("impl {} for {}", trait_key(p), selfk)),
             None => norm(&format!("impl {}", selfk)),
         };
+        let qikey = norm(&format!("{}::{}", self.module, ikey));
+        let ikey = if self.c.traits.contains_key(&qikey) { qikey } else { ikey };
         if let Some(t) = self.c.traits.get(&ikey).cloned() {
             self.c.used_traits.insert(ikey.clone());
             let gid = self.marker(t);
@@ -1163,7 +1243,42 @@ fn indent(text: &str, n: usize) -> String {
     text.lines().map(|l| if l.trim().is_empty() { String::new() } else { format!("{}{}", pad, l) }).collect::<Vec<_>>().join("\n")
 }
 
-fn postprocess(mut s: String, index: &[String]) -> String {
+/// `vp_xxx ! (` (token printing of items rustfmt left alone) -> `vp_xxx!(`
+fn squeeze_markers(s: &str) -> String {
+    let b: Vec<char> = s.chars().collect();
+    let mut out = String::with_capacity(s.len());
+    let mut i = 0;
+    while i < b.len() {
+        if b[i] == 'v' && i + 3 < b.len() && b[i + 1] == 'p' && b[i + 2] == '_' && (i == 0 || !(b[i - 1].is_alphanumeric() || b[i - 1] == '_')) {
+            let mut j = i;
+            while j < b.len() && (b[j].is_alphanumeric() || b[j] == '_') {
+                j += 1;
+            }
+            let mut k = j;
+            while k < b.len() && b[k] == ' ' {
+                k += 1;
+            }
+            if k < b.len() && b[k] == '!' {
+                let mut l = k + 1;
+                while l < b.len() && b[l] == ' ' {
+                    l += 1;
+                }
+                if l < b.len() && b[l] == '(' {
+                    out.extend(b[i..j].iter());
+                    out.push_str("!(");
+                    i = l + 1;
+                    continue;
+                }
+            }
+        }
+        out.push(b[i]);
+        i += 1;
+    }
+    out
+}
+
+fn postprocess(s: String, index: &[String]) -> String {
+    let mut s = squeeze_markers(&s);
     // vp_ret!(T) -> (r: T)
     loop {
         let Some(p) = s.find("vp_ret!(") else { break };
@@ -1181,11 +1296,22 @@ fn postprocess(mut s: String, index: &[String]) -> String {
         let (n, e) = inner.split_once(',').unwrap();
         s.replace_range(p..=close, &format!("{}: {}", n.trim(), e.trim()));
     }
+    // vp_closure!(N, { body }) -> HEADER { body }
+    loop {
+        let Some(p) = s.find("vp_closure!(") else { break };
+        let open = p + "vp_closure!".len();
+        let close = find_matching(s.as_bytes(), open);
+        let inner = s[open + 1..close].to_string();
+        let (n, body) = inner.split_once(',').unwrap();
+        let id: usize = n.trim().trim_end_matches("usize").parse().unwrap();
+        let text = format!("{} {}", index[id].trim_end(), body.trim());
+        s.replace_range(p..=close, &text);
+    }
     // vp_contract_nobody!(N); inside { } -> contract ;
     loop {
         let Some(p) = s.find("vp_contract_nobody!(") else { break };
         let close = s[p..].find(");").unwrap() + p;
-        let id: usize = s[p + "vp_contract_nobody!(".len()..close].trim().parse().unwrap();
+        let id: usize = s[p + "vp_contract_nobody!(".len()..close].trim().trim_end_matches("usize").parse().unwrap();
         let open_brace = s[..p].rfind('{').unwrap();
         let end_brace = s[close..].find('}').unwrap() + close;
         let text = format!("\n{}\n    ;", indent(&index[id], 8));
@@ -1195,7 +1321,7 @@ fn postprocess(mut s: String, index: &[String]) -> String {
     loop {
         let Some(p) = s.find("vp_contract!(") else { break };
         let close = s[p..].find(");").unwrap() + p;
-        let id: usize = s[p + "vp_contract!(".len()..close].trim().parse().unwrap();
+        let id: usize = s[p + "vp_contract!(".len()..close].trim().trim_end_matches("usize").parse().unwrap();
         let open_brace = s[..p].rfind('{').unwrap();
         // indentation of the line holding the brace
         let text = format!("\n{}\n    {{", indent(&index[id], 8));
@@ -1205,7 +1331,7 @@ fn postprocess(mut s: String, index: &[String]) -> String {
     loop {
         let Some(p) = s.find("vp_loop!(") else { break };
         let close = s[p..].find(");").unwrap() + p;
-        let id: usize = s[p + "vp_loop!(".len()..close].trim().parse().unwrap();
+        let id: usize = s[p + "vp_loop!(".len()..close].trim().trim_end_matches("usize").parse().unwrap();
         let open_brace = s[..p].rfind('{').unwrap();
         let text = format!("\n{}\n    {{", indent(&index[id], 12));
         s.replace_range(open_brace..close + 2, &text);
@@ -1215,7 +1341,7 @@ fn postprocess(mut s: String, index: &[String]) -> String {
         loop {
             let Some(p) = s.find(mac) else { break };
             let close = s[p..].find(");").unwrap() + p;
-            let id: usize = s[p + mac.len()..close].trim().parse().unwrap();
+            let id: usize = s[p + mac.len()..close].trim().trim_end_matches("usize").parse().unwrap();
             let text = format!("\n{}\n", indent(&index[id], 8));
             s.replace_range(p..close + 2, &text);
         }
